@@ -28,9 +28,9 @@ def tasks(tier):
         t.append((C, "woodbury", dict(kind=kind, norb=2, nu=1, nd=1)))
     t.append((C, "woodbury", dict(kind="uhf_cpmc", norb=3, nu=2, nd=1)))
     if tier == "thorough":
-        t.append((C, "woodbury", dict(kind="ghf_cpmc", norb=3, nu=2, nd=1)))
+        t.append((C, "woodbury", dict(kind="uhf_cpmc", norb=3, nu=1, nd=1)))
         t.append((C, "update", dict(kind="uhf_cpmc", norb=4)))
-        t.append((C, "update", dict(kind="ghf_cpmc", norb=4)))
+        t.append((C, "site_body", dict(kind="uhf_cpmc", fast=True, norb=3)))
     t += [(C, "hs_constants", {}), (C, "canary", {})]
     for fast in (True, False):
         for kind in ("uhf_cpmc", "ghf_cpmc"):
